@@ -54,7 +54,8 @@ func C02(c Ctx) *report.Report {
 	next := 0
 	o := clpOpts(c, 30, 1200)
 	o.Weights = map[int]int{1: 2, 2: 7, 3: 6, 4: 6, 5: 4, 6: 2, 7: 1, 8: 2, 9: 1}
-	hs := RunClpHistories(c, rep, rng, o, &next)
+	hs := []History{ScriptF14(&next)} // corpus first
+	hs = append(hs, RunClpHistories(c, rep, rng, o, &next)...)
 	for _, h := range hs {
 		MonUnits(rep, h)
 		if len(rep.Samples) < 2 && len(h.Steps) > 3 {
